@@ -42,9 +42,11 @@ const (
 	mDeleteMany // a chain of Map.Delete calls; every intermediate value is checked, the last one joins the pool
 	sDeleteMany
 	mTxnDeleteMany
+	mSetMany // a chain of Map.Set calls over a run of keys (a prefix key first or in between)
+	sSetMany
 )
 
-var msNames = []string{"map.Set", "map.Delete", "map.Read", "FromMap", "txn.Begin", "txn.Set", "txn.Delete", "txn.Read", "txn.Commit", "txn.Drop", "map.Equal", "map.RoundTrip", "set.New", "set.Set", "set.Delete", "set.Read", "set.Union", "set.Difference", "set.Equal", "set.RoundTrip", "map.DeleteMany", "set.DeleteMany", "txn.DeleteMany"}
+var msNames = []string{"map.Set", "map.Delete", "map.Read", "FromMap", "txn.Begin", "txn.Set", "txn.Delete", "txn.Read", "txn.Commit", "txn.Drop", "map.Equal", "map.RoundTrip", "set.New", "set.Set", "set.Delete", "set.Read", "set.Union", "set.Difference", "set.Equal", "set.RoundTrip", "map.DeleteMany", "set.DeleteMany", "txn.DeleteMany", "map.SetMany", "set.SetMany"}
 
 type MSOp struct {
 	K    int      `json:"k"`
@@ -420,6 +422,31 @@ func runMapSet(c MSCase) (res msResult) {
 			w := cloneMap(m.want)
 			delete(w, o.Key)
 			maps = append(maps, &mapMember{nm, w, fmt.Sprintf("Delete(%q) at step %d on #%d", o.Key, step, idx)})
+		case mSetMany:
+			m, idx := pickM(o.A)
+			note(m, idx)
+			nm, w := m.m, cloneMap(m.want)
+			for i, k := range o.Keys {
+				nm = nm.Set(k, mv(o.Val+i))
+				w[k] = o.Val + i
+				if e := checkMap(fmt.Sprintf("after Set(%q) in a chain of sets on #%d", k, idx), nm, k, w); e != nil {
+					err = fail("map-read", e)
+					break
+				}
+			}
+			maps = append(maps, &mapMember{nm, w, fmt.Sprintf("Set chain of %d keys at step %d on #%d", len(o.Keys), step, idx)})
+		case sSetMany:
+			sm := pickS(o.A)
+			ns, w := sm.s, cloneSet(sm.want)
+			for _, k := range o.Keys {
+				ns = ns.Set(k)
+				w[k] = struct{}{}
+				if e := checkSet(fmt.Sprintf("after Set(%q) in a chain of sets", k), ns, w); e != nil {
+					err = fail("set-read", e)
+					break
+				}
+			}
+			sets = append(sets, &setMember{ns, w, fmt.Sprintf("Set.Set chain of %d keys at step %d", len(o.Keys), step)})
 		case mDeleteMany:
 			m, idx := pickM(o.A)
 			note(m, idx)
@@ -690,7 +717,7 @@ func runMapSet(c MSCase) (res msResult) {
 	return res
 }
 
-// wideKeys: 36 one-character keys (distinct first bytes below the empty key)
+// wideKeys: 60 one-character keys (distinct first bytes below the empty key)
 // and 20 keys below "a": with them a node that holds a value of its own grows
 // and shrinks through the 4/16/48 child thresholds.
 var wideKeys = func() []string {
@@ -699,6 +726,9 @@ var wideKeys = func() []string {
 		out = append(out, string(c))
 	}
 	for c := '0'; c <= '9'; c++ {
+		out = append(out, string(c))
+	}
+	for c := 'c'; c <= 'z'; c++ {
 		out = append(out, string(c))
 	}
 	for c := 'A'; c < 'A'+20; c++ {
@@ -714,8 +744,8 @@ func genMSCase(t *rapid.T) MSCase {
 		sNew, sSet, sSet, sDelete, sRead, sUnion, sDifference, sEqual, sRoundTrip}
 	if rapid.IntRange(0, 2).Draw(t, "wide") == 0 {
 		key = rapid.OneOf(rapid.SampledFrom(msKeys), rapid.SampledFrom(wideKeys), rapid.SampledFrom(wideKeys))
-		maxKeys = 56
-		kinds = append(kinds, mDeleteMany, mDeleteMany, sDeleteMany, sDeleteMany, mTxnDeleteMany, mFromMap, sNew)
+		maxKeys = 76
+		kinds = append(kinds, mDeleteMany, mDeleteMany, sDeleteMany, sDeleteMany, mTxnDeleteMany, mFromMap, sNew, mSetMany, mSetMany, sSetMany)
 	}
 	genOp := rapid.Custom(func(t *rapid.T) MSOp {
 		o := MSOp{K: rapid.SampledFrom(kinds).Draw(t, "k")}
@@ -729,17 +759,25 @@ func genMSCase(t *rapid.T) MSCase {
 		if o.K == mFromMap || o.K == sNew || o.K == mDeleteMany || o.K == sDeleteMany || o.K == mTxnDeleteMany {
 			n := 4
 			if maxKeys > 4 {
-				n = rapid.SampledFrom([]int{2, 4, 5, 16, 17, 18, 40, maxKeys}).Draw(t, "nkeys")
+				n = rapid.SampledFrom([]int{2, 4, 5, 16, 17, 18, 40, 49, 60, maxKeys}).Draw(t, "nkeys")
 			}
 			o.Keys = rapid.SliceOfNDistinct(key, 0, n, rapid.ID[string]).Draw(t, "keys")
 			o.Vals = rapid.SliceOfN(rapid.IntRange(10, 19), len(o.Keys), len(o.Keys)).Draw(t, "vals")
+		}
+		if o.K == mSetMany || o.K == sSetMany {
+			// a run of one-character keys (distinct first bytes) with a key that is
+			// a prefix of all of them ("") somewhere in the run
+			perm := rapid.Permutation(wideKeys[:60]).Draw(t, "perm")
+			n := rapid.SampledFrom([]int{4, 5, 16, 17, 48, 49, 50, 60}).Draw(t, "run")
+			at := rapid.IntRange(0, n).Draw(t, "prefixKeyAt")
+			o.Keys = append(append(append([]string{}, perm[:at]...), ""), perm[at:n]...)
 		}
 		return o
 	})
 	return MSCase{Ops: vk.Ops(t, genOp, 20, "ops")}
 }
 
-const ruleC17 = "branching histories of 1..44 operations over pools of part.Map[string,int] and part.Set[string] versions (keys over {\"\",a,b,ab,ba,abc,b0,é,\"a b\"}; in a third of the cases also 36 one-character keys and 20 keys below \"a\", with FromMap/NewSet of up to 56 keys, so that value-holding nodes cross the 4/16/48 child thresholds): Set/Delete/FromMap on any earlier member, MapTxn (up to two open, used further after Commit, interleaved with operations on other members), EqualKeys/SlowEqual, Union/Difference/Equal, JSON and YAML round-trips; every result and, after every step, every pool member and open transaction is compared with a Go map model. Non-trivial = an operation applied to a singleton or to an older (non-latest) member; distinct by case encoding."
+const ruleC17 = "branching histories of 1..44 operations over pools of part.Map[string,int] and part.Set[string] versions (keys over {\"\",a,b,ab,ba,abc,b0,é,\"a b\"}; in a third of the cases also 60 one-character keys and 20 keys below \"a\", with FromMap/NewSet of up to 76 keys, so that value-holding nodes cross the 4/16/48 child thresholds): Set/Delete/FromMap on any earlier member, MapTxn (up to two open, used further after Commit, interleaved with operations on other members), EqualKeys/SlowEqual, Union/Difference/Equal, JSON and YAML round-trips; every result and, after every step, every pool member and open transaction is compared with a Go map model. Non-trivial = an operation applied to a singleton or to an older (non-latest) member; distinct by case encoding."
 
 func TestC17MapSet(t *testing.T) {
 	const test = "TestC17MapSet"
